@@ -42,6 +42,8 @@ def layout_bytes(case, built):
     stack = bytearray(built.stack_size)
     amap = bytearray(built.map_size)
     for name, (storage, fmt, addr) in built.layout.items():
+        if storage == "packet":
+            continue
         b = dsl.to_bytes(fmt, case["values"][name])
         if storage == "local":
             pos = built.stack_size + addr
